@@ -330,6 +330,15 @@ def _gen_xform(rng, st, s, name, live):
             kw[k] = True if k == 'invalid' else thr
         if rng.random() < 0.3:
             kw['coords'] = True
+        if datav and rng.random() < 0.45:
+            v = rng.choice(datav)
+            n = int(np.prod(v[2])) if v[2] else 1
+            op['where'] = {'like': v[0], 'cells': sorted(set(rng.randrange(max(1, n))
+                                                           for _ in range(rng.randrange(1, 4)))),
+                           'as': rng.choice(['where', 'mask']),
+                           'dims': rng.random() < 0.3}
+            if rng.random() < 0.5:
+                kw = {}
         op['kw'] = kw
     elif name == 'eval':
         if datav:
@@ -533,7 +542,19 @@ def _do_xform(st, s, op):
     elif name == 'reorder':
         r = f.reorderDimensions(op['old'], op['new'])
     elif name == 'mask':
-        r = f.mask(**op.get('kw', {}))
+        kw = dict(op.get('kw', {}))
+        wh = op.get('where')
+        if wh is not None and wh['like'] in f.variables:
+            like = f.variables[wh['like']]
+            m = np.zeros(like.shape, dtype=bool)
+            fl = m.reshape(-1)
+            for i in wh['cells']:
+                if fl.size:
+                    fl[i % fl.size] = True
+            kw[wh['as']] = m
+            if wh.get('dims'):
+                kw['dims'] = tuple(like.dimensions)
+        r = f.mask(**kw)
     elif name == 'eval':
         r = f.eval(op['expr'], inplace=False, copyall=op.get('copyall', False))
     elif name == 'binop':
